@@ -3,10 +3,11 @@ CONSTANTS
   GenFiles = {1, 2, 3, 4}
   OtherFiles = {5}
   Modes = {292, 420, 384}
-  Variants = {0, 1, 2, 3}
+  Variants = {0, 1, 2, 3, 4, 7, 8}
   ChmodGate = TRUE
   CopyGate = TRUE
   Truncates = TRUE
+  PPOrder = "program_first"
   Privileged = FALSE
   OptsSel = "all"
   EnvOn = TRUE
